@@ -659,7 +659,14 @@ pub async fn catch_up_sub(
     #[cfg(feature = "verif")]
     klukai_types::verif::point("catchup.before_live", &matcher.id().to_string());
 
-    forward_sub_to_sender(matcher, sub_rx, evt_tx, params.skip_rows).await
+    forward_sub_to_sender(
+        matcher,
+        sub_rx,
+        evt_tx,
+        params.skip_rows,
+        Some(last_change_id),
+    )
+    .await
 }
 
 pub async fn upsert_sub(
@@ -682,6 +689,7 @@ pub async fn upsert_sub(
             sub_rx,
             tx,
             params.skip_rows,
+            None,
         ));
 
         bcast_write.insert(handle.id(), sub_tx.clone());
@@ -827,11 +835,15 @@ pub async fn api_v1_subs(
 
 const MAX_EVENTS_BUFFER_SIZE: usize = 1024;
 
+/// Forward live events to a subscriber. When the subscriber was caught up
+/// to `last_change_id` first, changes it already received are dropped and a
+/// jump in change ids ends the stream with an error instead of being passed on.
 async fn forward_sub_to_sender(
     handle: MatcherHandle,
     mut sub_rx: broadcast::Receiver<(Bytes, QueryEventMeta)>,
     tx: mpsc::Sender<(Bytes, QueryEventMeta)>,
     skip_rows: bool,
+    mut last_change_id: Option<ChangeId>,
 ) {
     info!(sub_id = %handle.id(), "forwarding subscription events to a sender");
 
@@ -863,6 +875,25 @@ async fn forward_sub_to_sender(
             )
         {
             continue;
+        }
+        if let (Some(last), QueryEventMeta::Change(change_id)) = (last_change_id.as_mut(), &meta) {
+            if *change_id <= *last {
+                // already delivered while catching up (the event was still on
+                // its way to the broadcast channel when we read the snapshot)
+                continue;
+            }
+            if *change_id > *last + 1 {
+                warn!(sub_id = %handle.id(), "missed changes between {last:?} and {change_id:?}, ending subscriber stream");
+                let mut buf = BytesMut::new();
+                _ = tx
+                    .send(error_to_query_event_bytes_with_meta(
+                        &mut buf,
+                        format!("missed changes between {last} and {change_id}"),
+                    ))
+                    .await;
+                return;
+            }
+            *last = *change_id;
         }
         if let Err(e) = tx.send((event_buf, meta)).await {
             warn!(sub_id = %handle.id(), "could not send subscription event to channel: {e}");
